@@ -184,6 +184,7 @@ func skolemVariant(ob *Obligation) *Obligation {
 			}
 		}
 		alt.Hyps = append(alt.Hyps, inst...)
+		alt.Hyps = append(alt.Hyps, cellRangeFacts(inst)...)
 	}
 	if !ob.noAnte {
 		// implications whose antecedent is quantified (a callee's derived clause "old(Inv) ==> Inv", an invariant
@@ -226,21 +227,27 @@ func (p *Program) prepareAntecedents(alt *Obligation) {
 	for _, h := range alt.Hyps {
 		hs[h.String()] = true
 	}
+	built := map[string][]*Obligation{} // the groups share most of their antecedent conjuncts: one sub-goal per conjunct
 	for _, g := range alt.Ante {
 		for _, c := range conjuncts(g.P) {
 			if hs[c.String()] {
 				continue
 			}
-			for _, part := range splitGoal(c) {
-				sub := &Obligation{Name: alt.Name + "/antecedent", Func: alt.Func, Kind: alt.Kind, Props: alt.Props, Tags: alt.Tags, Uses: alt.Uses,
-					Hyps: append([]*Term(nil), alt.Hyps...), Goal: part, noAnte: true}
-				if sv := skolemVariant(sub); sv != nil {
-					sv.noAnte = true
-					sub = sv
+			subs, ok := built[c.String()]
+			if !ok {
+				for _, part := range splitGoal(c) {
+					sub := &Obligation{Name: alt.Name + "/antecedent", Func: alt.Func, Kind: alt.Kind, Props: alt.Props, Tags: alt.Tags, Uses: alt.Uses,
+						Hyps: append([]*Term(nil), alt.Hyps...), Goal: part, noAnte: true}
+					if sv := skolemVariant(sub); sv != nil {
+						sv.noAnte = true
+						sub = sv
+					}
+					p.instantiate(sub)
+					subs = append(subs, sub)
 				}
-				p.instantiate(sub)
-				g.Obs = append(g.Obs, sub)
+				built[c.String()] = subs
 			}
+			g.Obs = append(g.Obs, subs...)
 		}
 	}
 }
@@ -270,6 +277,36 @@ func flatConjuncts(t *Term) []*Term {
 	return out
 }
 
+// cellRangeFacts: the type ranges (famRanges) of the heap cells read by the given ground formulas.
+func cellRangeFacts(ts []*Term) []*Term {
+	var out []*Term
+	seen := map[string]bool{}
+	var rec func(t *Term)
+	rec = func(t *Term) {
+		if t.Op == "forall" || t.Op == "exists" {
+			return
+		}
+		if t.Op == "select" && len(t.Args) == 2 && t.Sort == SInt {
+			if rg, ok := famRanges[arrayLabel(t.Args[0])]; ok && !seen[t.String()] && len(out) < 400 {
+				seen[t.String()] = true
+				if rg[0] != nil {
+					out = append(out, Le(BigInt(rg[0]), t))
+				}
+				if rg[1] != nil {
+					out = append(out, Le(t, BigInt(rg[1])))
+				}
+			}
+		}
+		for _, a := range t.Args {
+			rec(a)
+		}
+	}
+	for _, t := range ts {
+		rec(t)
+	}
+	return out
+}
+
 func itoa(n int) string {
 	if n == 0 {
 		return "0"
@@ -295,6 +332,33 @@ type indexTerms struct {
 	by      map[string][]*Term
 	seen    map[string]bool
 	skolems []*Term
+	pairs   map[string][][2]*Term // family -> (region, index) of the ground reads select(select(F, r), i)
+}
+
+func (ix *indexTerms) addPair(t *Term) {
+	// t = select(select(A, r), i)
+	if t.Op != "select" || len(t.Args) != 2 || t.Args[0].Op != "select" || len(t.Args[0].Args) != 2 {
+		return
+	}
+	r, i := t.Args[0].Args[1], t.Args[1]
+	if r.Sort != SInt || i.Sort != SInt || len(r.String())+len(i.String()) > 2500 {
+		return
+	}
+	label := arrayLabel(t.Args[0])
+	if label == "" {
+		return
+	}
+	k := "pair|" + label + "|" + r.String() + "|" + i.String()
+	if ix.seen[k] {
+		return
+	}
+	ix.seen[k] = true
+	if ix.pairs == nil {
+		ix.pairs = map[string][][2]*Term{}
+	}
+	if len(ix.pairs[label]) < 24 {
+		ix.pairs[label] = append(ix.pairs[label], [2]*Term{r, i})
+	}
 }
 
 // labelOf: the family an array term belongs to, whatever its version: strip stores, selects of the region level,
@@ -351,7 +415,7 @@ func (ix *indexTerms) collectSk(t *Term) {
 			return
 		}
 		add := func(label string, i *Term) {
-			if label == "" || i.Sort != SInt || i.IsInt() || !hasSymP(i, isSkolem) || len(i.String()) > 400 {
+			if label == "" || i.Sort != SInt || i.IsInt() || len(i.String()) > 2000 {
 				return
 			}
 			k := label + "|" + i.String()
@@ -363,6 +427,7 @@ func (ix *indexTerms) collectSk(t *Term) {
 		}
 		if t.Op == "select" && len(t.Args) == 2 {
 			add(arrayLabel(t.Args[0]), t.Args[1])
+			ix.addPair(t)
 		}
 		if strings.HasPrefix(t.Op, "sf_") {
 			for k, a := range t.Args {
@@ -394,12 +459,15 @@ func (ix *indexTerms) collect(t *Term, goalSide bool) {
 		free := func(i *Term) bool {
 			return len(bound) == 0 || !hasSymP(i, func(n string) bool { return bound[n] })
 		}
-		if t.Op == "select" && len(t.Args) == 2 && t.Args[1].Sort == SInt && free(t.Args[1]) && len(t.Args[1].String()) <= 400 {
+		if t.Op == "select" && len(t.Args) == 2 && t.Args[1].Sort == SInt && free(t.Args[1]) && len(t.Args[1].String()) <= 2000 {
 			ix.add(arrayLabel(t.Args[0]), t.Args[1], goalSide)
+			if free(t) {
+				ix.addPair(t)
+			}
 		}
 		if strings.HasPrefix(t.Op, "sf_") {
 			for k, a := range t.Args {
-				if a.Sort == SInt && free(a) && len(a.String()) <= 400 {
+				if a.Sort == SInt && free(a) && len(a.String()) <= 2000 {
 					ix.add(t.Op+"#"+itoa(k), a, goalSide)
 				}
 			}
@@ -475,6 +543,10 @@ func (w *weakener) weaken(t *Term, positive bool) *Term {
 				emit(map[string]*Term{ints[0].Name: v})
 			}
 		} else {
+			// a fact about every cell of a family, select(select(F, r), i + X): instantiate at the cells that are read
+			for _, pr := range w.pairUses(t.Args[0], ints[0], ints[1]) {
+				emit(map[string]*Term{ints[0].Name: pr[0], ints[1].Name: pr[1]})
+			}
 			for _, v0 := range per[0] {
 				for _, v1 := range per[1] {
 					emit(map[string]*Term{ints[0].Name: v0, ints[1].Name: v1})
@@ -487,6 +559,43 @@ func (w *weakener) weaken(t *Term, positive bool) *Term {
 		return And(out...)
 	}
 	return t
+}
+
+// pairUses: for a body that reads select(select(F, r), i + X) with bound r and i, the (r0, i0 - X) of the ground reads
+// of the same family.
+func (w *weakener) pairUses(body *Term, r, i *Term) [][2]*Term {
+	var out [][2]*Term
+	seen := map[string]bool{}
+	isR := func(n string) bool { return n == r.Name }
+	isI := func(n string) bool { return n == i.Name }
+	var rec func(t *Term)
+	rec = func(t *Term) {
+		if t.Op == "forall" || t.Op == "exists" {
+			return
+		}
+		if t.Op == "select" && len(t.Args) == 2 && t.Args[0].Op == "select" && len(t.Args[0].Args) == 2 {
+			rt, it := t.Args[0].Args[1], t.Args[1]
+			if rt.Op == "sym" && isR(rt.Name) && hasSymP(it, isI) && !hasSymP(it, isR) {
+				x0 := subst(it, map[string]*Term{i.Name: Int(0)})
+				x1 := subst(it, map[string]*Term{i.Name: Int(1)})
+				if d := Sub(x1, x0); d.IsInt() && d.Val.IsInt64() && d.Val.Int64() == 1 && !hasSymP(x0, isI) {
+					for _, pr := range w.ix.pairs[arrayLabel(t.Args[0])] {
+						v := [2]*Term{pr[0], Sub(pr[1], x0)}
+						k := v[0].String() + "|" + v[1].String()
+						if !seen[k] && len(out) < 24 {
+							seen[k] = true
+							out = append(out, v)
+						}
+					}
+				}
+			}
+		}
+		for _, a := range t.Args {
+			rec(a)
+		}
+	}
+	rec(body)
+	return out
 }
 
 // valuesFor: the values for bound variable b: for each use  b + X  (coefficient 1) at a label, c - X for the ground
